@@ -2,6 +2,7 @@ import Bpmn.Props.C12
 import Bpmn.Props.EngineCurrent
 import Bpmn.Props.C12Current
 import Bpmn.Props.C12Steps
+import Bpmn.Props.C12Blind
 open Bpmn.Props.C12 Bpmn.Props.EngineCurrent
 #print axioms C12_partial
 #print axioms settle_holds_parent
@@ -28,3 +29,6 @@ open Bpmn.Props.C12 Bpmn.Props.EngineCurrent
 #print axioms Bpmn.Props.C12Nest.nest_as_inline
 #print axioms Bpmn.Props.C12Steps.nest_run_current
 #print axioms Bpmn.Props.C12Steps.nestProc_run_current
+#print axioms Bpmn.Props.C12Blind.arrive_reparent
+#print axioms Bpmn.Props.C12Blind.selectFlows_reparent
+#print axioms Bpmn.Props.C12Blind.answerPrep_reparent
